@@ -377,3 +377,73 @@ def end_sensitive_constructs(pattern):
         elif op in (ASSERT, ASSERT_NOT) and av[0] == 1:
             out.append("look-ahead")
     return out
+
+
+def sample(pattern, number):
+    """a shortest string matched by the pattern in which the first digit-bearing group reads `number`
+    (first alternative of every branch, minimum count of every repeat); None if the pattern uses constructs outside
+    literals / classes / groups / repeats / branches / anchors"""
+    from re._constants import ANY, CATEGORY_SPACE, CATEGORY_WORD
+    used = [False]
+
+    def has_digit(tree):
+        for op, av in walk(tree):
+            if op == IN and any((o == CATEGORY and a == CATEGORY_DIGIT) or (o == RANGE and a == (48, 57)) for o, a in av):
+                return True
+        return False
+
+    def gen(tree):
+        out = []
+        for op, av in tree:
+            if op == LITERAL:
+                out.append(chr(av))
+            elif op == IN:
+                items = [x for x in av if x[0] != NEGATE]
+                if any(x[0] == NEGATE for x in av) or not items:
+                    return None
+                o, a = items[0]
+                if o == LITERAL:
+                    out.append(chr(a))
+                elif o == RANGE:
+                    out.append(chr(a[0]))
+                elif o == CATEGORY and a == CATEGORY_DIGIT:
+                    out.append("1")
+                elif o == CATEGORY and a == CATEGORY_SPACE:
+                    out.append(" ")
+                elif o == CATEGORY and a == CATEGORY_WORD:
+                    out.append("x")
+                else:
+                    return None
+            elif op == SUBPATTERN:
+                sub = list(av[3])
+                if not used[0] and has_digit(sub):
+                    used[0] = True
+                    out.append(number)
+                else:
+                    g = gen(sub)
+                    if g is None:
+                        return None
+                    out.append(g)
+            elif op in (MAX_REPEAT, MIN_REPEAT):
+                lo, hi, sub = av
+                for _ in range(lo):
+                    g = gen(list(sub))
+                    if g is None:
+                        return None
+                    out.append(g)
+            elif op == BRANCH:
+                g = gen(list(av[1][0]))
+                if g is None:
+                    return None
+                out.append(g)
+            elif op == AT:
+                continue
+            elif op == ANY:
+                out.append("x")
+            else:
+                return None
+        return "".join(out)
+    try:
+        return gen(list(parse(pattern)))
+    except AnalysisError:
+        return None
